@@ -105,7 +105,25 @@ class Ref:
                     self.nodes.append(n)
             self.edges |= pedges
             return None
+        if kind in ('reduce', 'close'):          # in place; only enabled on acyclic graphs
+            rch = self.reach()
+            if kind == 'close':
+                self.edges = rch
+            else:
+                self.edges = {(u, v) for u, v in self.edges if not any((u, w) in rch and (w, v) in rch for w in self.nodes)}
+            return None
         raise AssertionError(oper)
+
+    def reach(self):
+        rch = set(self.edges)
+        while True:
+            more = {(u, y) for u, v in rch for x, y in rch if v == x} - rch
+            if not more:
+                return rch
+            rch |= more
+
+    def acyclic(self):
+        return not any(u == v for u, v in self.reach())
 
 
 def apply_real(graph, oper, byname, pool):
@@ -121,6 +139,10 @@ def apply_real(graph, oper, byname, pool):
             graph.remove_dependency(byname[oper[1]], on=byname[oper[2]])
         elif kind == 'merge':
             graph.merge(pool[oper[1]][1])
+        elif kind == 'reduce':
+            graph.transitive_reduction()
+        elif kind == 'close':
+            graph.transitive_closure()
         else:
             raise AssertionError(oper)
     except (KeyError, ValueError) as exc:
@@ -231,6 +253,14 @@ def job_bfs(job):
             r_real = apply_real(graph, oper, byname, pool)
             r_ref = ref.apply(oper, pool)
             status.append((oper, r_real, r_ref, before == concrete(graph)))
+            # look at the graph between the edits, as a user would: anything an observer caches must follow the next edit
+            try:
+                observe(graph, byname)
+                graph.initial()
+                graph.terminal()
+                graph.invert()
+            except Exception:  # pylint: disable=broad-except
+                pass            # reported by check() on the history that ends here
         return graph, ref, byname, pool, status
 
     def canon(obj):
@@ -308,6 +338,9 @@ def job_bfs(job):
         return probs
 
     def ops_of(hist, obj):
+        # in-place reduction / closure are defined on acyclic graphs; with at least one edge they can change something
+        if obj[1].edges and obj[1].acyclic():
+            return opers + [('reduce',), ('close',)]
         return opers
 
     seen = bfs.search(build, ops_of, canon, check, depth, rep, label='edit', on_new=on_new)
@@ -437,6 +470,7 @@ def check_dag(rep, n, edges, order, DepGraph):
     got = {(int(k.name[1:]), int(v.name[1:])) for k, vs in red for v in vs}
     # unique minimal edge set of a DAG: keep (u,v) iff no path u -> w -> ... -> v of length >= 2
     want = {(u, v) for u, v in eset if not any((u, w) in rch and (w, v) in rch for w in range(n))}
+    want_red = want
     if got != want:
         rep.violate('C16|reduction', f'transitive_reduction edges {sorted(got)} != minimal {sorted(want)}', case, n)
     clo = g.copy().transitive_closure()
@@ -447,6 +481,31 @@ def check_dag(rep, n, edges, order, DepGraph):
         rep.violate('C16|reduction|nodes', 'reduction/closure changed the node set', case, n)
     if concrete_plain(g) != concrete_plain(build_same(n, order, eds, nodes, DepGraph)):
         rep.violate('C16|alias|reduction-modifies-original', 'reduction/closure of a copy modified the original', case, n)
+    # the same two operations IN PLACE on a graph that has been looked at before (dependees / initial / invert), then every
+    # public observer again: a graph edited by reduction or closure is still the graph it reports
+    byname = {x.name: x for x in nodes}
+    names_ref = ['n%d' % i for i in range(n)]
+    for what, wanted in (('reduction', want_red), ('closure', rch)):
+        live = build_same(n, order, eds, nodes, DepGraph)
+        observe(live, byname)
+        live.initial()
+        live.invert()
+        if what == 'reduction':
+            live.transitive_reduction()
+        else:
+            live.transitive_closure()
+        ref_edges = {('n%d' % u, 'n%d' % v) for u, v in wanted}
+        for key, text in compare(live, names_ref, ref_edges, byname, f'in-place-{what}'):
+            rep.violate(key, text, case, n)
+        inv = live.invert()
+        got_inv = {(k.name, v.name) for k, vs in inv for v in vs}
+        if got_inv != {(y, x) for x, y in ref_edges}:
+            rep.violate(f'C16|in-place-{what}|invert', f'invert() after an in-place {what}: {sorted(got_inv)} != {sorted((y, x) for x, y in ref_edges)}',
+                        case, n)
+        init = sorted(x.name for x in live.initial())
+        wanti = sorted(nm for nm in names_ref if not any(y == nm for _, y in ref_edges))
+        if init != wanti:
+            rep.violate(f'C16|in-place-{what}|initial', f'initial() after an in-place {what}: {init} != {wanti}', case, n)
     rep.case(nontrivial=True if len(edges) >= 2 else None, outcome='dag-ok')
 
 
